@@ -27,6 +27,7 @@ N_st   == RH \o <<115,116>>                                     \* refs/heads/st
 N_sd   == RH \o <<115,100>>                                     \* refs/heads/sd
 N_ss   == RH \o <<115,115>>                                     \* refs/heads/ss
 N_oh   == <<114,101,102,115,47,114,101,109,111,116,101,115,47,111,47,72,69,65,68>>   \* refs/remotes/o/HEAD
+N_eq   == RH \o <<101,61,49>>                                  \* refs/heads/e=1 ('=' also separates a capability from its value)
 N_none == RH \o <<110,111,110,101>>                             \* refs/heads/none (never exists)
 
 Oid(n, v) == [name |-> n, k |-> "oid", v |-> v]
@@ -42,11 +43,12 @@ Alphabet == <<
   Sym(N_st, N_t),      \* symbolic ref to an annotated tag
   Sym(N_sd, N_none),   \* dangling symbolic ref
   Sym(N_ss, N_s),      \* chain of symbolic refs
-  Sym(N_oh, N_a)       \* the usual refs/remotes/<r>/HEAD
+  Sym(N_oh, N_a),      \* the usual refs/remotes/<r>/HEAD
+  Oid(N_eq, C2)        \* a branch whose name contains '='
 >>
 
 Heads == { [k |-> "sym", v |-> N_a], [k |-> "sym", v |-> N_t], [k |-> "sym", v |-> N_s], [k |-> "sym", v |-> N_sd],
-           [k |-> "sym", v |-> N_none], [k |-> "oid", v |-> C2], [k |-> "oid", v |-> T1] }
+           [k |-> "sym", v |-> N_none], [k |-> "sym", v |-> N_eq], [k |-> "oid", v |-> C2], [k |-> "oid", v |-> T1] }
 
 PrefixSets == << <<>>, <<RH>>, <<S_HEAD, RT>>, <<N_s>>, <<RH \o <<100,47>>>> >>
 \*               none  refs/heads/  HEAD+refs/tags/  refs/heads/s  refs/heads/d/
